@@ -106,25 +106,70 @@ theorem C15_star_in_brackets_rejected :
 
 /-! ## meaning -/
 
-/-- The root-to-leaf node sequences of the compiled graphs are exactly the
-documented paths (`paths`, DslDenote.lean, written from the user manual): same
-steps, same notify and optional flags, same order. -/
+/-- Compilation of a parsed expression never fails. -/
+theorem C15_compile_total (c : Cst) (notify : Bool) (br : Forest) :
+    create (toExpr c notify) br = .ok (createD (toExpr c notify) br) :=
+  create_total _ br
+
+/-- The compiled graphs denote exactly the documented observation pattern: the
+set of their root-to-leaf node sequences is the set of documented paths
+(`paths`, DslDenote.lean, written from the user manual) — same steps, same
+notify and optional flags.  (A set: equal parallel branches below a series are
+one branch since fix 4a0994c.) -/
 theorem C15_meaning (c : Cst) (gs : Forest) (h : compileExpr (toExpr c true) = .ok gs) :
-    gs.paths = paths c := by
-  have := create_ok _ _ _ h
-  subst this
+    ∀ p, p ∈ gs.paths ↔ p ∈ paths c := by
+  intro p
+  have e : gs = createD (toExpr c true) .nil := by
+    have := create_total (toExpr c true) .nil
+    simp only [compileExpr] at h
+    rw [this] at h
+    exact (Except.ok.inj h).symm
+  subst e
+  rw [mem_paths_createD]
+  have := exprWords_toExpr c none
+  simp only [notifies] at this
+  rw [this]
+  simp [paths, Forest.tails, crossO_nilpath]
+
+/-- No node of the graphs as written has two equal children (no two parallel
+branches below a series compile to equal graphs). -/
+def NoDupBranches (c : Cst) : Prop := (createU (toExpr c true) .nil).wf = true
+
+/-- … and when no two parallel branches below a series are equal, the compiled
+graphs are the graphs as written and their paths are the documented paths as a
+*list* (same order, same multiplicity). -/
+theorem C15_meaning_exact (c : Cst) (gs : Forest) (h : compileExpr (toExpr c true) = .ok gs)
+    (hd : NoDupBranches c) : gs = createU (toExpr c true) .nil ∧ gs.paths = paths c := by
+  have e : gs = createD (toExpr c true) .nil := by
+    have := create_total (toExpr c true) .nil
+    simp only [compileExpr] at h
+    rw [this] at h
+    exact (Except.ok.inj h).symm
+  rw [createD_eq_createU _ _ hd] at e
+  subst e
+  refine ⟨rfl, ?_⟩
   rw [paths_createU]
   have := exprWords_toExpr c none
   simp only [notifies] at this
   rw [this]
   simp [paths, Forest.tails, crossO_nilpath]
 
+/-- Every node of every compiled graph has pairwise different children (the
+invariant `ObserverGraph.__init__` enforces). -/
+theorem C15_children_unique (c : Cst) (gs : Forest) (h : compileExpr (toExpr c true) = .ok gs) :
+    gs.wf = true := by
+  have := create_total (toExpr c true) .nil
+  simp only [compileExpr] at h
+  rw [this] at h
+  rw [← Except.ok.inj h]
+  exact wf_createD _ _ rfl
+
 /-- A step notifies iff it is the last of its path or is followed by `.`
 (through any brackets): the compiled paths are the words of the expression,
 each atom flagged by the connector that follows it; in a word exactly the last
 atom has no follower; the flag is "not followed by `:`". -/
 theorem C15_notify_law (c : Cst) (gs : Forest) (h : compileExpr (toExpr c true) = .ok gs) :
-    gs.paths = (lin c none).map (·.map flag) ∧
+    (∀ p, p ∈ gs.paths ↔ p ∈ (lin c none).map (·.map flag)) ∧
     (∀ w ∈ lin c none, ∃ (init : Word) (a : Atom),
         w = init ++ [(a, none)] ∧ ∀ x ∈ init, ∃ cn, x.2 = some cn) ∧
     (∀ (a : Atom) (f : Option Conn), (flag (a, f)).notifyFlag = decide (f ≠ some .quiet)) :=
@@ -139,18 +184,19 @@ theorem C15_notify_propagation (c : Cst) (f : Option Conn) :
 
 /-- `items` stands for four alternatives — a trait named "items", dict items,
 list items, set items — all optional, all with the notify flag of the position. -/
-theorem C15_items (notify : Bool) (br : Forest) (h : br.unique = true) :
+theorem C15_items (notify : Bool) (br : Forest) :
     create (toExpr .items notify) br =
-      .ok (.cons (.named itemsKw notify true) br
-          (.cons (.dictItems notify true) br
-          (.cons (.listItems notify true) br
-          (.cons (.setItems notify true) br .nil)))) ∧
+      .ok (.cons (.named itemsKw notify true) br.dedupe
+          (.cons (.dictItems notify true) br.dedupe
+          (.cons (.listItems notify true) br.dedupe
+          (.cons (.setItems notify true) br.dedupe .nil)))) ∧
     (∀ f, lin .items f =
       [[(.itemsTrait, f)], [(.dictItems, f)], [(.listItems, f)], [(.setItems, f)]]) ∧
     (∀ a f, (flag (a, f)).optionalFlag =
       (a == .itemsTrait || a == .dictItems || a == .listItems || a == .setItems)) := by
   refine ⟨?_, fun _ => rfl, flag_optional⟩
-  simp [toExpr, itemsExpr, create, h]
+  rw [create_total]
+  rfl
 
 example : (compileChars (fun _ => false) "c:items.v".toList).map Forest.paths = .ok
     [[.named ['c'] false false, .named itemsKw true true, .named ['v'] true false],
@@ -192,69 +238,53 @@ example : Cst.Equiv (.ser (.group (.ser (.trait ['a']) .quiet (.trait ['b']))) .
   .trans (.ser _ (.unbracket _) (.refl _))
     (.trans (.serAssoc _ _ _ _ _) (.ser _ (.refl _) (.symm (.unbracket _))))
 
-/-! ## "every grammar string compiles" — false as it stands (F8) -/
+/-! ## every grammar string compiles (F8, repaired by fix 4a0994c) -/
 
-/-- The full-strength acceptance claim of the property statement. -/
-def C15_accepts_all : Prop :=
-  ∀ (uw : Char → Bool) (c : Cst), grammatical uw c = true →
-    ∃ gs, compileExpr (toExpr c true) = .ok gs
-
-/-- No node of the (unchecked) compiled graphs has two equal children: no two
-parallel branches below a series compile to equal graphs. -/
-def NoDupBranches (c : Cst) : Prop := (createU (toExpr c true) .nil).wf = true
-
-/-- `compile_expr` raises (ValueError, "Not all children are unique") exactly
-when the graphs it would build have a node with two equal children. -/
-theorem C15_compile_iff_unique (e : Expr) :
-    compileExpr e = if (createU e .nil).wf then .ok (createU e .nil) else .error .valueError :=
-  create_eq e .nil rfl
-
-/-- Every grammar string without duplicate parallel branches below a series
-compiles, and denotes the documented paths. -/
-theorem C15_accepts_all_partial (uw : Char → Bool) (c : Cst) (s : List Char)
-    (hg : grammatical uw c = true) (hs : IsRendering c s) (hd : NoDupBranches c) :
-    ∃ gs, compileChars uw s = .ok gs ∧ gs.paths = paths c := by
-  have hc : compileExpr (toExpr c true) = .ok (createU (toExpr c true) .nil) := by
-    rw [C15_compile_iff_unique, hd]; rfl
+/-- **Acceptance at full strength**: every rendering of every derivation tree of
+the grammar is accepted, compiles, and denotes the documented paths. -/
+theorem C15_accepts_all (uw : Char → Bool) (c : Cst) (s : List Char)
+    (hg : grammatical uw c = true) (hs : IsRendering c s) :
+    ∃ gs, compileChars uw s = .ok gs ∧ ∀ p, p ∈ gs.paths ↔ p ∈ paths c := by
+  have hc : compileExpr (toExpr c true) = .ok (createD (toExpr c true) .nil) :=
+    create_total _ .nil
   exact ⟨_, by simp [compileChars, C15_parse_render uw c s hg hs, hc], C15_meaning c _ hc⟩
 
-/-- … and the hypothesis is necessary. -/
-theorem C15_accepts_all_partial_conv (c : Cst) (gs : Forest)
-    (h : compileExpr (toExpr c true) = .ok gs) : NoDupBranches c := by
-  rw [C15_compile_iff_unique] at h
-  by_cases hw : (createU (toExpr c true) .nil).wf = true
-  · exact hw
-  · simp [hw] at h
+/-- … and the only rejection is that of the parser: `compile_str` raises
+(ValueError) iff the text is not a rendering of a derivation tree. -/
+theorem C15_rejects_iff_not_grammar (uw : Char → Bool) (s : List Char) :
+    compileChars uw s = .error .valueError ↔ parseChars uw s = none := by
+  simp only [compileChars]
+  cases h : parseChars uw s with
+  | none => simp
+  | some c =>
+    have := create_total (toExpr c true) .nil
+    simp only [compileExpr] at this ⊢
+    simp [this]
 
 /-- the tree of `x.[a,a]` -/
 def dupWitness : Cst :=
   .ser (.trait ['x']) .notify (.group (.par (.trait ['a']) (.trait ['a'])))
 
-/-- Negation witness (replayed on the implementation by the corpus of c15.py):
-`x.[a,a]` is generated by the grammar, is parsed, and is rejected by compilation. -/
-theorem C15_dup_rejected :
-    grammatical (fun _ => false) dupWitness = true ∧
+/-- Regression for F8 (these raised "Not all children are unique" before the
+fix; replayed on the implementation by the corpus of c15.py): the duplicate
+branch is kept once. -/
+theorem C15_dup_accepted :
     parseChars (fun _ => false) "x.[a,a]".toList = some dupWitness ∧
-    compileExpr (toExpr dupWitness true) = .error .valueError ∧
-    compileChars (fun _ => false) "x.[a.b,a.b]".toList = .error .valueError ∧
-    compileChars (fun _ => false) "x.[items, items]".toList = .error .valueError ∧
-    compileChars (fun _ => false) "x.[a.[b,c],a.[c,b]]".toList = .error .valueError := by
+    compileExpr (toExpr dupWitness true) =
+      .ok (.cons (.named ['x'] true false) (.cons (.named ['a'] true false) .nil .nil) .nil) ∧
+    (compileChars (fun _ => false) "x.[a.b,a.b]".toList).map Forest.paths =
+      .ok [[.named ['x'] true false, .named ['a'] true false, .named ['b'] true false]] ∧
+    (compileChars (fun _ => false) "x.[items, items]".toList).map (·.paths.length) = .ok 4 ∧
+    (compileChars (fun _ => false) "x.[a.[b,c],a.[c,b]]".toList).map (·.paths.length) = .ok 2 := by
   decide
 
-theorem C15_accepts_all_fails : ¬ C15_accepts_all := by
-  intro h
-  obtain ⟨gs, hgs⟩ := h (fun _ => false) dupWitness (by decide)
-  have := C15_dup_rejected.2.2.1
-  rw [this] at hgs
-  cases hgs
-
-/-- the hypothesis of `C15_accepts_all_partial` is satisfiable on a non-trivial tree:
-`foo:[bar,baz].items` -/
+/-- the trees this matters for exist: `x.[a,a]` has duplicate branches, `foo:[bar,baz].items` has none;
+duplicates that are not below a series were always accepted and stay two graphs (`a,a`). -/
+example : ¬ NoDupBranches dupWitness := by unfold NoDupBranches; decide
 example : NoDupBranches (.ser (.ser (.trait ['f']) .quiet
     (.group (.par (.trait ['b', 'a', 'r']) (.trait ['b', 'a', 'z'])))) .notify .items) := by
   unfold NoDupBranches; decide
-/-- duplicates that are not below a series are accepted (`a,a`, `[a,a].b`) -/
-example : NoDupBranches (.par (.trait ['a']) (.trait ['a'])) := by unfold NoDupBranches; decide
-example : (compileChars (fun _ => false) "[a,a].b".toList).isOk = true := by decide
+example : (compileChars (fun _ => false) "a,a".toList).map (·.length) = .ok 2 := by decide
+example : (compileChars (fun _ => false) "[a,a].b".toList).map (·.length) = .ok 2 := by decide
 
 end TraitsVerif.Props.C15
